@@ -1,4 +1,28 @@
-PROPERTY = {'id': 'C13', 'contract_modules': ['doctest_example', 'doctest_part', 'parser'],
-            'functions': ['xdoctest.parser:DoctestParser._package_groups#offsets', 'xdoctest.parser:DoctestParser._package_chunk',
-                          'xdoctest.parser:DoctestParser._label_docsrc_lines#labels', 'xdoctest.parser:_complete_source'],
-            'clauses': {'P': [], 'T': []}, 'explanation': 'C13 (under construction)'}
+_P = 'xdoctest.parser:DoctestParser.'
+PROPERTY = {
+    'id': 'C13',
+    'contract_modules': ['doctest_example', 'doctest_part', 'parser'],
+    'functions': [_P + '_label_docsrc_lines#labels', 'xdoctest.parser:_complete_source',
+                  _P + '_package_groups#offsets', _P + '_package_chunk',
+                  _P + 'parse', 'xdoctest.parser:_min_indentation', _P + '_label_docsrc_lines', _P + '_group_labeled_lines',
+                  _P + '_package_groups'],
+    'clauses': {
+        'P': ['_label_docsrc_lines: every line of the (tab-free) docstring gets exactly ONE label -- the number of labelled lines equals the '
+              'number of lines consumed from the shared line iterator at every loop head and equals the number of lines at the end -- and the '
+              'line stored with the first label of an iteration is the line itself, unmodified',
+              'the label of each line taken by the main loop is S.next_label(previous label, line, indentation of the open example), written '
+              'from the statement: text -> source at a primary prompt; after source: blank / de-indented -> text, prompted -> source '
+              '(continuation if "..."-prefixed; a bare "..." is want after a primary-prompt line and continuation after a continuation), else '
+              'want; in a want: blank -> text, primary prompt -> source even if de-indented, de-indented -> text, else want',
+              'lines swallowed by statement completion get source labels (continuation from the first "..."-prefixed one on)',
+              '_package_groups: the line number handed to each chunk is the number of lines of all earlier chunks (part offsets are true line indices); '
+              'text chunks are yielded as their joined lines and never packaged as code',
+              'parse: tabs are expanded before the indentation is measured and before labelling (preconditions of the callees)'],
+        'T': ['_complete_source (generator driving the tokenizer-based balance check): yields the line and one pair per further line it consumes',
+              '_package_chunk (ast-based slicing)', 're.search spans of INDENT_RE (leading spaces of a non-blank line)'],
+        'N/A': ['_group_labeled_lines (three passes over lists of (label, line) pairs and nested groups) is not under contract: that the grouping '
+                'is an order-preserving partition is not decided; the HACK_TRIPLE_QUOTE_FIX branch of _complete_source rewrites a swallowed line '
+                '(noted in section 7 as F10; it lies inside the assumed contract)'],
+    },
+    'explanation': 'C13 (partial): the labelling state machine equals the documented transition rule and labels every line once; offsets are sums of chunk sizes.',
+}
